@@ -257,6 +257,35 @@ func Pump(r *simrt.RNG, size int) (string, string) {
 	return sb.String(), "pump"
 }
 
+// PumpPair returns the same pumped input at size and at 4*size (same context, same repeated token).
+func PumpPair(r *simrt.RNG, size int) (small, big, kind string) {
+	unit := Tags[r.Intn(len(Tags))]
+	if r.Intn(3) == 0 {
+		unit = []string{"src/* ", "a//b ", "{$x} /* c */ ", "'s' ", "{call .t}{param a: 1 /}{/call}", "{msg desc=\"d\"}<b>x</b>{$x}{/msg}", "{literal}x{/literal}", "\n\n  \n", "<a href=\"u\">{$x}</a>", "{if $x}{$x}{/if}", "{@param x: ?}"}[r.Intn(11)]
+	}
+	if len(unit) == 0 {
+		unit = "x"
+	}
+	prefix := ""
+	switch r.Intn(4) {
+	case 1:
+		prefix = "{namespace a.b}\n/** @param x */\n{template .t}\n"
+	case 2:
+		prefix = "{namespace a.b}\n/** @param x */\n{template .t}\n{$x + "
+	case 3:
+		prefix = "{namespace a.b}\n/** @param x */\n{template .t}\n{msg desc=\"d\"}"
+	}
+	build := func(n int) string {
+		var sb strings.Builder
+		sb.WriteString(prefix)
+		for sb.Len() < n {
+			sb.WriteString(unit)
+		}
+		return sb.String()
+	}
+	return build(size), build(4 * size), "pump"
+}
+
 // RandomBytes returns n random bytes (including invalid UTF-8), biased towards Soy punctuation.
 func RandomBytes(r *simrt.RNG, n int) string {
 	const punct = "{}/$.|:,'\"\\ \n*@?[]()=-+<>!"
